@@ -59,6 +59,9 @@ pub fn programs() -> Vec<(&'static str, String)> {
         ("syntax error at a keyword", "print(1)\nx := fn\n".to_string()),
         ("syntax error at the end of the file", "print(1)\nx := (1 +".to_string()),
         ("printing function values", "fn named(a) {\n}\nanon := fn () {\n}\nprint(named)\nprint(anon)\nprint([anon, fn (q) {\n}, named])\nprint({\"m\": anon, \"t\": \"s\"->len, \"p\": print})\nprint(1->type)\n".to_string()),
+        ("undefined name close to several declared names", "total1 := 1\ntotal2 := 2\ntotal3 := 3\ntotals := 4\nprint(\"start\")\nprint(total)\n".to_string()),
+        ("missing property close to several existing ones", "o := {\"name1\": 1, \"name2\": 2, \"name3\": 3, \"names\": 4}\nprint(\"start\")\nprint(o.name)\n".to_string()),
+        ("unknown type function", "print(\"start\")\nprint(\"s\"->lenn())\n".to_string()),
         ("for over an object built by collect", format!("{}{{k3, ..r}} := o\nfor [k, v] in r {{\nprint([k, v])\n}}\n{{k1, k2, ..s}} = r\nprint(s)\n", big).replace("{k1, k2, ..s} = r", "k1 := 0\nk2 := 0\ns := 0\n{k1, k2, ..s} = r")),
     ]
 }
@@ -488,6 +491,17 @@ impl Check for C19 {
             n_values += 1;
             if batch.len() >= 100_000 {
                 ctx.judge(std::mem::take(&mut batch), |c, r, o| self.oracle(c, r, o))?;
+            }
+        }
+        // long lines: strings of 1..3 lines whose last line is around the usual buffer sizes, bare
+        // and inside containers
+        for n in [1usize, 1023, 1024, 1025, 4095, 4096, 4097, 8191, 8192, 8193, 65535, 65536, 65537] {
+            for head in ["", "x\n", "x\n\ny\n"] {
+                let sv = V::Str(format!("{}{}", head, "b".repeat(n)));
+                for v in [sv.clone(), V::List(vec![sv.clone()]), V::Obj(vec![("k".into(), sv.clone())]), V::List(vec![V::Int(1), V::List(vec![sv.clone(), sv.clone()])])] {
+                    batch.push(value_case(&v, 0));
+                    n_values += 1;
+                }
             }
         }
         // wide family and atoms
